@@ -40,12 +40,7 @@ def tlc_cfg(c):
 
 
 def run_model(c, coverage=False):
-    stats = T.run_tlc("MC_Ops", tlc_cfg(c), tag=c["name"], coverage=coverage, timeout=7200)
-    T.require_ok(stats)
-    if stats["lines"] != stats["generated"] - 1:
-        # every transition must have been emitted exactly once (one initial state)
-        raise T.MachineryError("%s: %d vectors emitted for %d transitions" % (c["name"], stats["lines"], stats["generated"] - 1))
-    return stats
+    return T.run_vectors("MC_Ops", tlc_cfg(c), c["name"], lambda st: st["generated"] - 1)
 
 
 def _replay(lines, families, asrt, lockstep, repo, procs=16):
